@@ -307,9 +307,10 @@ pub fn dispatch(args: &Args) -> i32 {
             parts.push(crate::extra::part_unparse_identity(args));
             parts.push(crate::extra::part_serde(args));
             parts.push(crate::calc::part_derived_roundtrip(args));
+            parts.push(crate::calc::part_negative_literals(args));
             finish(args, "C12", parts, vec![], json!({
                 "functions": ["deep::detail::unparse_raw", "FlatEx::unparse", "DeepEx::unparse", "FlatEx::from_deepex", "serde::{Serialize,Deserialize} for FlatEx"],
-                "assumptions": ["constants folded at parse time print in a reserved pattern that conforms to NumberMatcher (the property quantifies over literals whose Debug form is a literal of the matcher)"],
+                "assumptions": ["constants folded at parse time print in a reserved pattern that conforms to NumberMatcher (the property quantifies over literals whose Debug form is a literal of the matcher); in the exact-rational parts a negative constant prints with a leading `-` like a negative float"],
                 "outside": ["f64's exponent/inf/NaN Debug forms", "histories through calculus operations (covered in C10/C11/C05 evidence)"],
             }))
         }
